@@ -197,41 +197,43 @@ def units(ctx):
 
 
 def decomposition(ctx):
+    """R20.5 by may-reach analysis (pvs/flows.py): both current components (and, for the potential, the applied part) influence
+    what is returned; the total is returned as a `sum(...)` and the parts are returned when no sum is requested.  Independent of
+    whether the parts are produced by a loop, a comprehension, a nested function or two statements."""
+    from ..flows import reaching_labels
     repo = ctx.repo
-    f = repo.func(SOLN, "Solution.field_at_position")
-    loops = [n for n in own_nodes(f.node) if isinstance(n, ast.For) and isinstance(n.iter, (ast.Tuple, ast.List))]
-    names = [e.value for l in loops for e in l.iter.elts if isinstance(e, ast.Constant)]
-    from ..src import rename_id
-    # the accumulator by role: the list appended to inside the loop over the two current components
-    accs = {n.func.value.id for l in loops for n in ast.walk(l) if isinstance(n, ast.Call) and isinstance(n.func, ast.Attribute)
-            and n.func.attr == "append" and isinstance(n.func.value, ast.Name)}
-    acc = next(iter(accs)) if len(accs) == 1 else "?"
-    rets = [rename_id(norm(n.value), acc, "ACC") for n in own_nodes(f.node) if isinstance(n, ast.Return)]
-    ok = names == ["supercurrent_density", "normal_current_density"] and "sum(ACC)" in rets and "ACC" in rets \
-        and any(rename_id(norm(n), acc, "ACC") == "ACC = BiotSavartField(*ACC)" for n in own_nodes(f.node) if isinstance(n, ast.Assign))
-    ctx.ob("R20.5", "field_at_position: sum == supercurrent part + normal part; return_sum=False returns the parts", ok,
-           detail={"parts": names, "returns": rets}, where=f.fq, construct="field decomposition", loc=loc(f, f.node),
-           message=f"parts {names}, returns {rets}", consequence="the total field omits or double counts a current component")
-    f = repo.func(SOLN, "Solution.vector_potential_at_position")
-    # the table by role: the local initialised to {} and returned
-    tabs = [n.targets[0].id for n in own_nodes(f.node) if isinstance(n, ast.Assign) and isinstance(n.targets[0], ast.Name)
-            and isinstance(n.value, ast.Dict) and not n.value.keys
-            and any(isinstance(r, ast.Return) and norm(r.value) == n.targets[0].id for r in own_nodes(f.node))]
-    tab = tabs[0] if len(tabs) == 1 else "?"
-    loops = [n for n in own_nodes(f.node) if isinstance(n, ast.For) and isinstance(n.iter, (ast.Tuple, ast.List))]
-    lvars = {norm(l.target) for l in loops}
-    keys = []
-    for n in own_nodes(f.node):
-        if isinstance(n, ast.Assign) and isinstance(n.targets[0], ast.Subscript) and norm(n.targets[0].value) == tab:
-            k = norm(n.targets[0].slice)
-            keys.append("<loop variable>" if k in lvars else k)
-    names = [e.value for l in loops for e in l.iter.elts if isinstance(e, ast.Constant)]
-    rets = [rename_id(norm(n.value), tab, "TAB") for n in own_nodes(f.node) if isinstance(n, ast.Return)]
-    ok = sorted(keys) == ["'applied'", "<loop variable>"] and names == ["supercurrent_density", "normal_current_density"] \
-        and "sum(TAB.values())" in rets and "TAB" in rets
-    ctx.ob("R20.5", "vector_potential_at_position: sum == applied + supercurrent + normal parts", ok,
-           detail={"keys": keys, "parts": names, "returns": rets}, where=f.fq, construct="potential decomposition",
-           loc=loc(f, f.node), message=f"keys {keys}, parts {names}", consequence="the total potential omits a part")
+
+    def component(x):
+        if isinstance(x, ast.Attribute) and norm(x.value) == "self" and x.attr in ("supercurrent_density", "normal_current_density"):
+            return x.attr
+        if isinstance(x, ast.Call) and norm(x.func) == "self.applied_vector_potential":
+            return "applied"
+        return None
+    for qual, want in (("Solution.field_at_position", {"supercurrent_density", "normal_current_density"}),
+                       ("Solution.vector_potential_at_position", {"supercurrent_density", "normal_current_density", "applied"})):
+        f = repo.func(SOLN, qual)
+        reach = reaching_labels(f.node, component)
+        got = reach.get("<return>", set())
+        rets = [n.value for n in own_nodes(f.node) if isinstance(n, ast.Return) and n.value is not None]
+        sums = [r for r in rets if isinstance(r, ast.Call) and norm(r.func) in ("sum", "np.sum", "numpy.sum", "math.fsum")]
+        parts = [r for r in rets if r not in sums]
+        # the summed container must itself be influenced by every component
+        sum_ok = False
+        for r in sums:
+            inner = set()
+            for x in ast.walk(r):
+                if isinstance(x, ast.Name) and isinstance(x.ctx, ast.Load):
+                    inner |= reach.get(x.id, set())
+                c = component(x)
+                if c:
+                    inner.add(c)
+            sum_ok = sum_ok or want <= inner
+        ok = want <= got and sum_ok and bool(parts)
+        ctx.ob("R20.5", f"{qual}: total == sum of the {sorted(want)} parts; the parts are returned when no sum is requested", ok,
+               detail={"components_reaching_the_result": sorted(got), "returns": [norm(r)[:60] for r in rets]}, where=f.fq,
+               construct=f"decomposition of {qual}", loc=loc(f, f.node),
+               message=f"{qual}: components reaching the result {sorted(got)} (wanted {sorted(want)}); summed return covers all: {sum_ok}; returns {[norm(r)[:40] for r in rets]}",
+               consequence="the total omits or double counts a current component (or the applied part)")
 
 
 def parts_converted(ctx):
@@ -278,6 +280,13 @@ def parts_converted(ctx):
                     elif norm(n.ast.value) != f"{v}.magnitude":
                         other.append(n.id)
             sink = cfg.node_of(st).id
+            if not conv:
+                # the part reaches the container through a shape this rule does not follow (nested function, dict literal ...):
+                # if the function converts to `units` somewhere the question is open (analysis error), otherwise it is a violation
+                anywhere = any(converts(x) for x in ast.walk(fn) if isinstance(x, ast.expr))
+                if anywhere:
+                    raise AnalysisError(f"{qual}: cannot relate the value stored by `{txt}` to the unit conversions of the function "
+                                        f"(code shape outside the fragment of R20.9)")
             wit = cfg.path(cfg.entry, sink, skip=conv, skip_edges=("exc",))
             # a non-converting redefinition between the conversion and the sink undoes it
             undone = None
